@@ -115,7 +115,7 @@ def reader_paths(prog, c, pf):
 def check_reader(rep, prog, c, pf):
     buf = pf.params[1] if len(pf.params) > 1 else 'packet'
     for s in reader_paths(prog, c, pf):
-        reads, problems = codec.reader_sequence(s, buf, cls=c)
+        reads, problems = codec.reader_sequence(s, buf, cls=c, recv=pf.params[0])
         scen = '; '.join('%s=%s' % (f[0][:50], f[1]) for f in s.facts) or 'straight line'
         construct = '%s.parse' % c.name if pf.cls is c else '%s.parse (inherited by %s)' % (pf.cls.name, c.name)
         a = [p for p in problems if p[0] in ('consume-what-you-read', 'read-offset', 'unmodelled-del')]
@@ -236,50 +236,47 @@ def check_writer_lengths(rep, prog, c, wf):
 
 
 # ------------------------------------------------------------------------------------------------ C08.c
-def _field_of(text):
-    """Name of the object attribute a writer term / reader target refers to."""
-    m = re.search(r'self\.(_?[A-Za-z][A-Za-z0-9_]*)', text or '')
+def _field_of(text, p0='self'):
+    """Name of the object attribute a writer term / reader target refers to (`p0` = the receiver parameter of the method)."""
+    m = re.search(r'(?<![A-Za-z0-9_.])%s\.(_?[A-Za-z][A-Za-z0-9_]*)' % re.escape(p0), text or '')
     if not m:
         return None
     n = m.group(1).lstrip('_')
     return n
 
 
-WIDTH_OF_ITEM = {'BYTE': '1'}
-
-
-def writer_fields(items):
+def writer_fields(items, p0='self'):
     out = []
     for it in merge_consts(items):
         k = it[0]
         if k == 'C':
             out.append((None, str(len(it[1]))))
         elif k == 'INT':
-            out.append((_field_of(it[2]), it[1]))
+            out.append((_field_of(it[2], p0), it[1]))
         elif k == 'BYTE':
-            out.append((_field_of(it[1]), '1'))
+            out.append((_field_of(it[1], p0), '1'))
         elif k == 'SYM':
             if 'header.__bytearray__' in it[1] or it[1].startswith('super('):
                 out.append(('<header>', None))
             else:
-                out.append((_field_of(it[1]), None))
+                out.append((_field_of(it[1], p0), None))
         elif k == 'SLICE':
             inner = it[1] if isinstance(it[1], str) else render_items(it[1])
-            out.append((_field_of(inner), None))
+            out.append((_field_of(inner, p0), None))
         elif k in ('EACH', 'REP', 'ALT', 'HASH'):
-            out.append((_field_of(render_item(it)) or '<loop>', None))
+            out.append((_field_of(render_item(it), p0) or '<loop>', None))
     return out
 
 
-def reader_fields(reads):
+def reader_fields(reads, p0='self'):
     out = []
     for r in reads:
         if r.kind == 'delegate' and (r.via or '').startswith('super:'):
             out.append(('<header>', None))
         elif r.kind in ('fixed', 'fixed-skip', 'delegate', 'alias', 'fixed-delegate'):
-            name = _field_of(r.target) if r.target and r.target.startswith('self.') else None
-            if name is None and r.kind == 'delegate' and r.via and r.via.startswith('self.'):
-                name = _field_of(r.via)
+            name = _field_of(r.target, p0) if r.target and r.target.startswith(p0 + '.') else None
+            if name is None and r.kind == 'delegate' and r.via and r.via.startswith(p0 + '.'):
+                name = _field_of(r.via, p0)
             out.append((name, r.width))
         elif r.kind == 'skip':
             out.append((None, r.width))
@@ -299,14 +296,16 @@ def check_field_order(rep, prog, classes):
         if not rps or not wps:
             continue
         buf = pf.params[1] if len(pf.params) > 1 else 'packet'
+        rp0, wp0 = pf.params[0], wf.params[0]
         # compare the set of field-name sequences: every reader path must have a writer path with the same named-field order
         wseqs = []
         for s, items in wps:
-            wf_ = [n for n, w in writer_fields(items) if n and n != '<header>' and n != '<loop>']
+            wf_ = [n for n, w in writer_fields(items, wp0) if n and n != '<header>' and n != '<loop>']
             wseqs.append(wf_)
+        rw, ww = {}, {}
         for s in rps:
-            reads, _ = codec.reader_sequence(s, buf, cls=c)
-            rf = [n for n, w in reader_fields(reads) if n and n != '<header>']
+            reads, _ = codec.reader_sequence(s, buf, cls=c, recv=rp0)
+            rf = [n for n, w in reader_fields(reads, rp0) if n and n != '<header>']
             # locals used only as lengths (nlen, vlen, fnl, oidlen) have no name; duplicates of the same field collapse
             rf = _dedupe(rf)
             scen = '; '.join('%s=%s' % (f[0][:40], f[1]) for f in s.facts) or 'straight line'
@@ -314,20 +313,24 @@ def check_field_order(rep, prog, classes):
             rep.check(match, 'C08.c', '%s parse/__bytearray__' % c.name, 'reader fields %s vs writer fields %s' % (rf, [_dedupe(w) for w in wseqs][:2]),
                       'the reader fills the fields in an order the writer does not emit them in: own output does not re-parse to the same values',
                       where=pf.where, expected=[_dedupe(w) for w in wseqs][:2], found=rf, scenario=scen)
-        # fixed widths: positions where both sides have a constant width must agree
-        for s in rps[:1]:
-            reads, _ = codec.reader_sequence(s, buf, cls=c)
-            skipk = set(_field_of(r.target) for r in reads if r.kind == 'fixed-skip' and r.target)
-            rw = {n: w for n, w in reader_fields(reads) if n and codec._int(w) is not None and n not in skipk}
-            for sw, items in wps[:1]:
-                ww = {n: w for n, w in writer_fields(items) if n and w is not None and codec._int(w) is not None}
-                for n in rw:
-                    if n in ww and codec._int(rw[n]) != codec._int(ww[n]):
-                        # a reader that consumes more than the named field (skip) is a normalisation; narrower writer is a defect
-                        rep.violation('C08.c', '%s parse/__bytearray__' % c.name, 'field %s: reader %s octets, writer %s' % (n, rw[n], ww[n]),
-                                      'field %s is read with %s octets but written with %s' % (n, rw[n], ww[n]), where=pf.where)
-                    elif n in ww:
-                        rep.ok('C08.c', '%s.%s' % (c.name, n), 'width %s both ways' % rw[n])
+            # a reader that consumes more than the named field (skip) is a normalisation and takes no part in the width comparison
+            skipk = set(_field_of(r.target, rp0) for r in reads if r.kind == 'fixed-skip' and r.target)
+            for n, w in reader_fields(reads, rp0):
+                if n and codec._int(w) is not None and n not in skipk:
+                    rw.setdefault(n, set()).add(codec._int(w))
+        for sw, items in wps:
+            for n, w in writer_fields(items, wp0):
+                if n and w is not None and codec._int(w) is not None:
+                    ww.setdefault(n, set()).add(codec._int(w))
+        # fixed widths: a field both sides give a constant width (on any of their paths) must have a width in common
+        for n in sorted(rw):
+            if n not in ww:
+                continue
+            if rw[n] & ww[n]:
+                rep.ok('C08.c', '%s.%s' % (c.name, n), 'width %s both ways' % sorted(rw[n] & ww[n]))
+            else:
+                rep.violation('C08.c', '%s parse/__bytearray__' % c.name, 'field %s: reader %s octets, writer %s' % (n, sorted(rw[n]), sorted(ww[n])),
+                              'field %s is read with %s octets but written with %s' % (n, sorted(rw[n]), sorted(ww[n])), where=pf.where)
     # key material: parse order = __pubfields__ / __privfields__ order
     fields = prog.module('pgpy.packet.fields')
     for c in fields.classes.values():
@@ -346,8 +349,9 @@ def check_field_order(rep, prog, classes):
                 decl = None
         if not decl:
             continue
-        # the order in which each path of the reader fills the declared integers (interpreter stores of MPI(buf) / ECPoint(buf),
-        # whatever the statements look like); every path must follow the declared order and together they must cover it
+        # the order in which each path of the reader takes the declared integers off the buffer (reader sequence: MPI(buf) / ECPoint(buf)
+        # constructions in event order, named by the field each one ends up in - directly or through locals); every path must follow
+        # the declared order and together they must cover it
         buf = pf.params[1] if len(pf.params) > 1 else 'packet'
         p0 = pf.params[0]
         seen = []
@@ -355,11 +359,12 @@ def check_field_order(rep, prog, classes):
         for s in reader_paths(prog, c, pf):
             if s.raised is not None:
                 continue
+            reads, _ = codec.reader_sequence(s, buf, cls=c, recv=p0)
             order = []
-            for pth, val, line, _ in s.stores:
-                if pth.startswith(p0 + '.') and '.' not in pth[len(p0) + 1:] and re.match(r'^(MPI|ECPoint)\(%s\)$' % re.escape(buf), val):
-                    if pth[len(p0) + 1:] not in order:
-                        order.append(pth[len(p0) + 1:])
+            for r in reads:
+                if r.kind == 'delegate' and r.via in ('MPI', 'ECPoint') and r.target and r.target.startswith(p0 + '.') and '.' not in r.target[len(p0) + 1:]:
+                    if r.target[len(p0) + 1:] not in order:
+                        order.append(r.target[len(p0) + 1:])
             orders.append(order)
             for x in order:
                 if x in decl and x not in seen:
@@ -675,7 +680,7 @@ def check_opaque(rep, prog):
     for s in reader_paths(prog, op, pf):
         if s.raised is not None:
             continue
-        reads, problems = codec.reader_sequence(s, buf, cls=op)
+        reads, problems = codec.reader_sequence(s, buf, cls=op, recv=p0)
         versioned = _versioned_fact(s, p0)
         seen.add(versioned)
         want = lin_add(length, '1', -1) if versioned else length
